@@ -1602,7 +1602,7 @@ func runChoices(r *ev.Run) bool {
 	// The workload allocates many small messages; under the race detector
 	// the collector dominates otherwise.
 	defer debug.SetGCPercent(debug.SetGCPercent(400))
-	total := r.Pick(20000, 300000)
+	total := r.Pick(20000, 200000)
 	nWorkers := 12
 	workers := make([]*choiceWorker, nWorkers)
 	for i := range workers {
